@@ -20,6 +20,7 @@ CONSTANTS MaxC,       \* containers ever created
           Wraps,      \* wrapper levels for children, e.g. {0, 1}
           Kinds,      \* kinds of child containers: "A" array, "M" map, "C" map with a composite type (compact encoding when inlined)
           Types,      \* type infos SetType may install (>= 100: composite types, which use the compact encoding when inlined)
+          Rejects,    \* also issue requests that must be rejected (out-of-range index, absent key)
           Persist, EmitDepth,
           RareOff     \* TRUE in exhaustive (breadth-first) configurations: every event is enabled in every state
 
@@ -127,6 +128,15 @@ Iter(h) == /\ Children(h) # {}
            /\ UNCHANGED <<cont, nextVid, nextId>> /\ Keep /\ H(<<"n.iter", h>>)
 SetType(h, ti) == /\ cont[h].ti # ti /\ cont' = [cont EXCEPT ![h].ti = ti]       \* ti = 0: the type the container was created with
                   /\ UNCHANGED <<live, nextVid, nextId>> /\ Keep /\ H(<<"n.settype", h, ti>>)
+\* ---- requests that must be rejected (C18), through any live handle at any depth: an index beyond the end of an array (with a
+\* value large enough to need a slab of its own, so that a conversion done before the bounds check would leave a slab behind),
+\* a lookup / removal of an absent key of a map.  Model state unchanged.
+RejA(h, what) == /\ cont[h].kind = "A" /\ UNCHANGED <<cont, live, nextVid, nextId>> /\ Keep
+                 /\ H(<<"x.arr", what, h, Len(cont[h].el) + (IF what = "ins" THEN 1 ELSE 0), nextId, 130>>)
+RejAC(h, what, kd) == /\ cont[h].kind = "A" /\ UNCHANGED <<cont, live, nextVid, nextId>> /\ Keep
+                      /\ H(<<"x.arrc", what, h, Len(cont[h].el) + (IF what = "ins" THEN 1 ELSE 0), kd>>)
+RejM(h, what, k) == /\ cont[h].kind \in {"M", "C"} /\ ~HasK(h, k) /\ UNCHANGED <<cont, live, nextVid, nextId>> /\ Keep
+                    /\ H(<<"x.map", what, h, k, KS(k)>>)
 \* ---- bulk pop through any live handle (children are disposed)
 Pop(h) == /\ Len(cont[h].el) > 0
           /\ LET gone == UNION {Sub(cont[h].el[i].id) : i \in {j \in 1..Len(cont[h].el) : cont[h].el[j].t = "c"}} IN
@@ -156,6 +166,9 @@ Next ==
   \/ \E h \in live, k \in 1..NKeys, kp \in BOOLEAN : MRem(h, k, kp)
   \/ \E h \in live, k \in 1..NKeys : MGet(h, k)
   \/ \E h \in live, k \in 1..NKeys, d \in Detached, w \in Wraps : MAttach(h, k, d, w)
+  \/ Rejects /\ Rare(4) /\ \E h \in live, what \in {"get", "set", "ins", "rem"} : RejA(h, what)
+  \/ Rejects /\ Rare(4) /\ \E h \in live, what \in {"mget", "mrem"}, k \in 1..NKeys : RejM(h, what, k)
+  \/ Rejects /\ Rare(4) /\ \E h \in live, what \in {"set", "ins"}, kd \in Kinds : RejAC(h, what, kd)
   \/ Rare(3) /\ \E h \in live : Iter(h)
   \/ Rare(5) /\ \E h \in live, ti \in Types : SetType(h, ti)
   \/ Rare(9) /\ \E h \in live : Pop(h)
